@@ -123,6 +123,23 @@ RegIso(r1, r2, seeds) ==
        /\ IsBijection(M)
        /\ \A p \in M : Body(MapRefs(r1[p[1]+1], LAMBDA a : f[a])) = Body(r2[p[2]+1])
 
+(***************************************************************************)
+(* C02 on an EXTRACTED universe: nodes = the compile-time graph as walked  *)
+(* through MetaType::type_info() (each with the TypeId of its identity,    *)
+(* the id a real registry returned for it, and its definition with         *)
+(* children as TypeIds); types = that registry.  Every node's id must      *)
+(* resolve to its own definition with each child replaced by the child's   *)
+(* id.                                                                     *)
+(***************************************************************************)
+FaithfulOK(nodes, types) ==
+  LET Tids == {nodes[i].tid : i \in 1..Len(nodes)}
+      IdOfTid(t) == nodes[CHOOSE i \in 1..Len(nodes) : nodes[i].tid = t].id IN
+  \A i \in 1..Len(nodes) :
+     /\ Range(Refs(nodes[i].info)) \subseteq Tids
+     /\ nodes[i].id < Len(types)
+     /\ types[nodes[i].id + 1].id = nodes[i].id
+     /\ Body(types[nodes[i].id + 1]) = MapRefs(nodes[i].info, LAMBDA t : IdOfTid(t))
+
 RECURSIVE ReachIds(_, _)
 ReachIds(r, S) ==
   LET nxt == S \cup UNION {Range(Refs(r[i+1])) : i \in S} IN IF nxt = S THEN S ELSE ReachIds(r, nxt)
